@@ -100,3 +100,12 @@ Theorem c14_reply_sent_after_delay : forall w' i b, wf_world w' ->
   | None => RReply b end = RReply b.
 Proof. exact send_reply. Qed.
 Print Assumptions c14_reply_sent_after_delay.
+
+(* trxcon, TRXD socket, what goes UP: whatever octets arrive, a burst indication handed to the scheduler carries a timeslot 0..7, a frame
+   number inside the hyperframe and exactly 148 or 444 soft bits in -127..127 - never more than the scheduler's 444-entry burst array
+   holds (trxcon asserts on a longer burst and aborts) *)
+Theorem c14_c_data_indication_shape : forall d tn fn rssi toa bits, Forall (fun b => 0 <= b < 256) d -> c_data_rx d = RxInd tn fn rssi toa bits ->
+  0 <= tn <= 7 /\ 0 <= fn < 2715648 /\ -128 <= rssi <= 127 /\ -32768 <= toa <= 32767
+  /\ (length bits = 148%nat \/ length bits = 444%nat) /\ Forall (fun s => -127 <= s <= 127) bits.
+Proof. exact c_data_rx_ind_shape. Qed.
+Print Assumptions c14_c_data_indication_shape.
